@@ -74,18 +74,44 @@ def extract_fn(src, name, impl=None):
     return sig, scope[b:end]
 
 
+def extract_macro_fn(src, macro, name):
+    m = re.search(r"macro_rules!\s+%s\s*\{" % re.escape(macro), src)
+    if not m:
+        raise Undecided("anchor lost: macro_rules! %s not found" % macro)
+    end = _match_brace(src, m.end() - 1)
+    scope = src[m.end():end - 1]
+    ms = list(re.finditer(r"fn\s+%s\s*\(" % re.escape(name), scope))
+    if len(ms) != 1:
+        raise Undecided("anchor lost: fn %s found %d times in macro %s" % (name, len(ms), macro))
+    b = scope.index("{", ms[0].end())
+    return scope[ms[0].start():b].strip(), scope[b:_match_brace(scope, b)]
+
+
 def render(template_path, repo, notes):
     t = open(template_path).read().split("\n")
     out = []
     i = 0
     while i < len(t):
         line = t[i]
-        m = re.match(r"\s*//@fn\s+(\w+)\s+from\s+(\S+)(.*)$", line)
+        m = re.match(r"\s*//@(fn|macrofn)\s+(\w+)\s+from\s+(\S+)(.*)$", line)
         if not m:
             out.append(line)
             i += 1
             continue
-        name, rel, rest = m.group(1), m.group(2), m.group(3)
+        is_macro = m.group(1) == "macrofn"
+        name, rel, rest = m.group(2), m.group(3), m.group(4)
+        macro = None
+        subst = {}
+        ret = None
+        if is_macro:
+            mm = re.search(r"\bmacro\s+(\w+)", rest)
+            macro = mm.group(1)
+            ms_ = re.search(r"\bsubst\s+(\S+)", rest)
+            for kv in ms_.group(1).split(","):
+                k, v = kv.split("=")
+                subst[k] = v
+            mr_ = re.search(r"\bret=(\S+)", rest)
+            ret = mr_.group(1) if mr_ else None
         impl = None
         mi = re.search(r"impl\s+(.+?)(?=\s+as\s+|\s+self=|\s*$)", rest)
         if mi:
@@ -100,11 +126,22 @@ def render(template_path, repo, notes):
             selfid = mself.group(1)
         contract = []
         rewrites = []
+        inserts = []
         i += 1
         while i < len(t) and not re.match(r"\s*//@end", t[i]):
             mr = re.match(r"\s*//@rewrite\s+(\d+)\s+/(.*)/\s*=>\s*/(.*)/\s*$", t[i])
+            mins = re.match(r"\s*//@(after|before|replace)(?:\[(\d+)/(\d+)\])?\s+`(.*)`\s*$", t[i])
             if mr:
                 rewrites.append((int(mr.group(1)), mr.group(2), mr.group(3)))
+            elif mins:
+                # ghost annotation block: following `//@| text` lines
+                block = []
+                i += 1
+                while i < len(t) and re.match(r"\s*//@\|", t[i]):
+                    block.append(re.sub(r"^\s*//@\| ?", "", t[i]))
+                    i += 1
+                inserts.append((mins.group(1), mins.group(4), "\n".join(block), int(mins.group(2) or 1), int(mins.group(3) or 1)))
+                continue
             else:
                 mc = re.match(r"\s*//@\s?(.*)$", t[i])
                 if not mc:
@@ -115,8 +152,23 @@ def render(template_path, repo, notes):
         p = os.path.join(repo, rel)
         if not os.path.exists(p):
             raise Undecided("anchor lost: %s" % rel)
-        sig, body = extract_fn(open(p).read(), name, impl)
+        if is_macro:
+            sig, body = extract_macro_fn(open(p).read(), macro, name)
+            for k, v in subst.items():
+                sig = sig.replace(k, v)
+                body = body.replace(k, v)
+            impl = "macro %s [%s]" % (macro, ",".join("%s=%s" % kv for kv in subst.items()))
+        else:
+            sig, body = extract_fn(open(p).read(), name, impl)
         dropped = []
+        if is_macro and selfid:
+            sig = re.sub(r"\(\s*self\s*\)", "(%s: %s)" % (selfid, subst.get("$t")), sig)
+            body = re.sub(r"\bself\b", selfid, body)
+            dropped.append("`self` -> `%s` (trait-impl method made a free function)" % selfid)
+            selfid = None
+        if ret:
+            sig = re.sub(r"->\s*[^\{]+$", "-> " + ret, sig)
+            dropped.append("return type -> %s" % ret)
         # signature: visibility/const dropped, rename, named return
         sig2 = re.sub(r"^pub(\([^)]*\))?\s+", "", sig)
         sig2 = re.sub(r"^const\s+", "", sig2)
@@ -137,6 +189,24 @@ def render(template_path, repo, notes):
                 raise Undecided("anchor lost: rewrite /%s/ matched %d times in %s, expected %d" % (pat, n, name, cnt))
             body = re.sub(pat, rep, body)
             dropped.append("rewrite x%d: /%s/ => /%s/" % (cnt, pat, rep))
+        # positions are computed on the text BEFORE any annotation is inserted, then applied
+        # back to front, so annotations never shift or create anchors
+        edits = []
+        for kind, anchor, block, k, total in inserts:
+            pos = [mm.start() for mm in re.finditer(re.escape(anchor), body)]
+            if len(pos) != total:
+                raise Undecided("anchor lost: annotation anchor `%s` occurs %d times in %s (after rewrites), expected %d" % (anchor, len(pos), name, total))
+            at = pos[k - 1]
+            if kind == "after":
+                edits.append((at + len(anchor), at + len(anchor), "\n" + block + "\n"))
+            elif kind == "before":
+                edits.append((at, at, block + "\n"))
+            else:
+                edits.append((at, at + len(anchor), block))
+        for a0, a1, txt in sorted(edits, key=lambda e: -e[0]):
+            body = body[:a0] + txt + body[a1:]
+        if inserts:
+            dropped.append("%d ghost annotation blocks inserted (invariants, proof blocks, ghost lets): no executable code" % len(inserts))
         out.append("// ---- extracted from %s: fn %s%s (body verbatim%s) ----" % (
             rel, name, " in impl " + impl if impl else "", "" if not rewrites else ", listed rewrites applied"))
         out.append(sig2)
